@@ -247,6 +247,16 @@ def make_unit(iset, cube_name, cube_pred, memarch='PMSA', nregions=1, props=('C1
         ob.props = ['C20']
         # ---- functional specification of the executed encoding (decode + operation), where a row exists
         rows = ENC.rows_for(kname)
+        if rows and events and 'fetch-abort' not in events:
+            # the instruction raised an exception of its own (SVC, SMC, abort, UNDEFINED in this mode ...): class selection still applies
+            dprop = 'C06' if iset == 'arm' else 'C07'
+            want = 'arm' if iset == 'arm' else ('t16' if iset == 'thumb16' else 't32')
+            rws = [r for r in rows if r.iset == want]
+            belongs = lor(*[r.match(instr) for r in rws]) if rws else False
+            if not eng.prove(sym.zb(belongs)):
+                belongs = lor(belongs, table_unpredictable(iset, instr, oplen, init, mem.init))
+            ob = eng.oblige('decode.class', '%s: the word belongs to the architectural encoding of the selected class' % tag, belongs)
+            ob.props = [dprop]
         if rows and not events:
             dprop = 'C06' if iset == 'arm' else 'C07'
             want = 'arm' if iset == 'arm' else ('t16' if iset == 'thumb16' else 't32')
@@ -290,6 +300,8 @@ def make_unit(iset, cube_name, cube_pred, memarch='PMSA', nregions=1, props=('C1
                                     getattr(eo.cls, 'execute', None) is K.execute)
                     ob.props = [r.family or fam]
                     continue
+                if r.op is None:
+                    continue            # decode-only row
                 st0 = dict(init)
                 st0['mem'] = mem.init
                 exp, s_unpred, s_undef = SS.spec_step(r, st0, instr, 'arm' if iset == 'arm' else 'thumb', oplen, fix=fix)
@@ -401,7 +413,7 @@ def row_unpred_undef(r, instr, base):
     f = r.extract(instr)
     unp = lor(r.sbz_violated(instr), r.unpred(f, base) if r.unpred is not None else False)
     und = r.undef(f, base) if r.undef is not None else False
-    if r.opfields is None:
+    if r.opfields is None and r.op is not None:
         exe = base.copy()
         mem0 = exe.st.get('mem')
         try:
